@@ -22,7 +22,7 @@ type c12 struct{}
 
 func init() { core.Register("C12", func() core.Scenario { return c12{} }) }
 
-var c12cats = []string{"reg", "reg", "reg", "unreg", "unreg", "generic", "generic", "method", "dir", "type", "mutate", "mutate", "unknown", "flood", "terminate"}
+var c12cats = []string{"reg", "reg", "reg", "unreg", "unreg", "generic", "generic", "method", "dir", "type", "mutate", "mutate", "unknown", "flood", "terminate", "nested"}
 
 func (c12) Gen(r *rand.Rand, tier string, run int) *core.Case {
 	c := &core.Case{Prop: "C12", Params: map[string]int{}}
@@ -59,6 +59,12 @@ func (c12) Gen(r *rand.Rand, tier string, run int) *core.Case {
 	}
 	if c.Batch == "stall" {
 		c.Ops = append(c.Ops, core.Op{Kind: "flood", Actor: 300, X: int64(r.Uint64() >> 2)})
+	}
+	for _, op := range c.Ops {
+		if op.Kind == "nested" && c.Batch != "stall" {
+			// megabyte frames: let them through in large pieces
+			c.Net.Capacity, c.Net.ReadMode = 0, "greedy"
+		}
 	}
 	return c
 }
@@ -473,6 +479,21 @@ func c12frames(st *c12state, cat string, r *rand.Rand) [][]byte {
 			copy(p[off:], le32(pick32(0, 0x7fffffff, 0xffffffff, 0x80000000, 0x00ffffff)))
 		}
 		return [][]byte{ref.NewFrame(ref.Call, s, o, act, id(), p).Encode()}
+	case "nested":
+		// a dynamic value made of lists nested as deep as the frame allows,
+		// each announcing the largest count the decoder tolerates: eleven
+		// bytes per level on the wire
+		_, o := target()
+		depth := []int{50, 2000, 50, 2000, 50, 2000, 50, 2000, 120000}[int(r.Uint32())%9]
+		var b ref.Buf
+		if r.IntN(2) == 0 {
+			b.ValStr("level") // setProperty(name, value) / property(name) with a trailing value
+		}
+		for i := 0; i < depth; i++ {
+			b.Str("[m]")
+			b.U32(4096)
+		}
+		return [][]byte{ref.NewFrame(uint8(pick32(ref.Call, ref.Post)), st.probeSvc, o, pick32(5, 6, 6), id(), b.Bytes()).Encode()}
 	case "flood":
 		n := 10 + r.IntN(290)
 		var out [][]byte
